@@ -50,6 +50,8 @@ def generate(repo: Repo, con: Contract, k=None, only_variant=None) -> Generated:
         if only_variant is not None and vi != only_variant:
             continue
         L = Logic(k)
+        from . import contract as _c
+        _c._REPO[0] = repo
         try:
             env, wf, probes = con.make_inputs(L, variant)
             ex = Exec(repo, L, REGISTRY, allowed_raises=tuple(con.raise_types()))
@@ -76,7 +78,7 @@ def generate(repo: Repo, con: Contract, k=None, only_variant=None) -> Generated:
                         for cname, goal in clauses.items():
                             G.instances.append(Instance(f"{con.qual}/post.{cname}", L, list(ex.pc), goal,
                                                         variant=vi, probes=probes, kind="post", extra=cname))
-                        for exc, cond in rconds.items():
+                        for exc, cond in (rconds.items() if getattr(con, "raises_exact", True) else ()):
                             G.instances.append(Instance(f"{con.qual}/must-raise.{exc}", L, list(ex.pc), L.Not(cond),
                                                         variant=vi, probes=probes, kind="must-raise", extra=exc))
                     elif kind == "raise":
